@@ -1,5 +1,5 @@
 import Mathlib.Data.List.Nodup
-import Mathlib.Data.List.Perm.Subperm
+import Mathlib.Tactic.Ring
 import Pyc.Proofs.SizeDom
 
 /-! The placeholder witnesses of `_build_fake_vkey_witnesses`: how many survive the `OrderedSet`, and that each of them
@@ -14,7 +14,7 @@ theorem beBytes_length' (k n : Nat) : (beBytes k n).length = k := by
   | succ k ih => simp [beBytes, ih]
 
 theorem fakeKey_lengths (i : Nat) : (fakeKey i).1.length = 32 ∧ (fakeKey i).2.length = 64 := by
-  simp [fakeKey, andBytes, maskVkey, maskSig, beBytes_length']
+  simp [fakeKey, xorBytes, maskVkey, maskSig, beBytes_length']
 
 /-- what `OrderedSet.extend` keeps: no repetition, nothing new, nothing already seen -/
 theorem dedupAux_spec (seen xs : List (Bytes × Bytes)) :
@@ -55,42 +55,79 @@ theorem dedupAux_id (seen xs : List (Bytes × Bytes)) (hn : xs.Nodup) (hd : ∀ 
     · exact hxs hy
     · exact hd y (List.mem_cons_of_mem _ hy) hm
 
-/-- the index is recoverable from the last byte of the key and bytes 31, 63 of the signature (`f9 | 5d | 03 = ff`) -/
-def recover (w : Bytes × Bytes) : Nat := ((w.1.getD 31 0) ||| (w.2.getD 31 0) ||| (w.2.getD 63 0)).toNat
+/-- big-endian bytes read back: the value modulo `256^k` -/
+theorem fromBE_beBytes (k n acc : Nat) : fromBE (beBytes k n) acc = acc * 256 ^ k + n % 256 ^ k := by
+  induction k generalizing acc with
+  | zero => simp [beBytes, fromBE, Nat.mod_one]
+  | succ k ih =>
+    have hb : (UInt8.ofNat (n / 256 ^ k % 256)).toNat = n / 256 ^ k % 256 := by
+      simp [Nat.mod_eq_of_lt (Nat.mod_lt _ (by decide : 0 < 256))]
+    simp only [beBytes, fromBE, ih, hb]
+    have hm : n % 256 ^ (k + 1) = n % 256 ^ k + 256 ^ k * (n / 256 ^ k % 256) := by
+      rw [Nat.pow_succ, Nat.mod_mul]
+    rw [hm, Nat.pow_succ]
+    ring
 
-set_option maxRecDepth 100000 in
-theorem recover_fakeKey : ∀ i, i < 256 → recover (fakeKey i) = i := by decide +kernel
+/-- the 32-byte big-endian encoding is injective below `2^256` (`256^32`) -/
+theorem beBytes32_inj (i j : Nat) (hi : i < 2 ^ 256) (hj : j < 2 ^ 256) (h : beBytes 32 i = beBytes 32 j) : i = j := by
+  have h1 := fromBE_beBytes 32 i 0
+  have h2 := fromBE_beBytes 32 j 0
+  rw [h] at h1
+  have e : (256 : Nat) ^ 32 = 2 ^ 256 := by decide
+  rw [e, Nat.mod_eq_of_lt hi] at h1
+  rw [e, Nat.mod_eq_of_lt hj] at h2
+  omega
 
-theorem fakeKey_inj (i j : Nat) (hi : i < 256) (hj : j < 256) (h : fakeKey i = fakeKey j) : i = j := by
-  have := congrArg recover h
-  rwa [recover_fakeKey i hi, recover_fakeKey j hj] at this
+theorem uint8_xor_cancel (a b c : UInt8) (h : a ^^^ b = a ^^^ c) : b = c := by
+  have hb : a ^^^ (a ^^^ b) = b := by rw [← UInt8.xor_assoc, UInt8.xor_self, UInt8.zero_xor]
+  have hc : a ^^^ (a ^^^ c) = c := by rw [← UInt8.xor_assoc, UInt8.xor_self, UInt8.zero_xor]
+  rw [← hb, h, hc]
 
-theorem fakeKey_256 : fakeKey 256 = fakeKey 0 := by decide +kernel
+/-- XOR with a constant mask that is at least as long is one-to-one on strings of equal length -/
+theorem xorBytes_inj (m x y : Bytes) (hl : x.length = y.length) (hm : x.length ≤ m.length)
+    (h : xorBytes m x = xorBytes m y) : x = y := by
+  induction m generalizing x y with
+  | nil =>
+    have : x.length = 0 := by simpa using hm
+    have hx : x = [] := List.length_eq_zero_iff.mp this
+    have hy : y = [] := List.length_eq_zero_iff.mp (by omega)
+    rw [hx, hy]
+  | cons a m ih =>
+    cases x with
+    | nil =>
+      have hy : y = [] := List.length_eq_zero_iff.mp (by simpa using hl.symm)
+      rw [hy]
+    | cons b x =>
+      cases y with
+      | nil => simp at hl
+      | cons c y =>
+        simp only [xorBytes, List.zipWith_cons_cons, List.cons.injEq] at h
+        have hbc := uint8_xor_cancel a b c h.1
+        have := ih x y (by simpa using hl) (by simpa using hm) h.2
+        rw [hbc, this]
 
-theorem fakeKeys_length (n : Nat) (h : n ≤ 256) : (fakeKeys n).length = n := by
-  unfold fakeKeys
-  rw [dedupAux_id]
-  · simp
-  · apply List.Nodup.map_on _ List.nodup_range
+/-- placeholders of different indices below `2^256` differ (already in the key) -/
+theorem fakeKey_inj (i j : Nat) (hi : i < 2 ^ 256) (hj : j < 2 ^ 256) (h : fakeKey i = fakeKey j) : i = j := by
+  have h1 : xorBytes maskVkey (beBytes 32 i) = xorBytes maskVkey (beBytes 32 j) := congrArg Prod.fst h
+  have := xorBytes_inj maskVkey (beBytes 32 i) (beBytes 32 j) (by simp [beBytes_length'])
+    (by simp [beBytes_length', maskVkey]) h1
+  exact beBytes32_inj i j hi hj this
+
+/-- up to `2^256` the `OrderedSet` drops nothing: the placeholders are `fakeKey 0, …, fakeKey (n-1)` -/
+theorem fakeKeys_eq (n : Nat) (h : n ≤ 2 ^ 256) : fakeKeys n = (List.range n).map fakeKey ∧ ((List.range n).map fakeKey).Nodup := by
+  have hnd : ((List.range n).map fakeKey).Nodup := by
+    apply List.Nodup.map_on _ List.nodup_range
     intro x hx y hy hxy
     exact fakeKey_inj x y (by have := List.mem_range.mp hx; omega) (by have := List.mem_range.mp hy; omega) hxy
-  · intro x _; simp
+  refine ⟨?_, hnd⟩
+  unfold fakeKeys
+  exact dedupAux_id [] _ hnd (by intro x _; simp)
 
-theorem fakeKeys_257 : (fakeKeys 257).length ≤ 256 := by
-  have hs := dedupAux_spec [] ((List.range 257).map fakeKey)
-  have hsub : fakeKeys 257 ⊆ (List.range 256).map fakeKey := by
-    intro x hx
-    have hm := (hs.2 x hx).1
-    obtain ⟨i, hi, rfl⟩ := List.mem_map.mp hm
-    have hi' := List.mem_range.mp hi
-    by_cases h : i < 256
-    · exact List.mem_map.mpr ⟨i, List.mem_range.mpr h, rfl⟩
-    · have : i = 256 := by omega
-      subst this
-      rw [fakeKey_256]
-      exact List.mem_map.mpr ⟨0, List.mem_range.mpr (by omega), rfl⟩
-  have := (List.subperm_of_subset hs.1 hsub).length_le
-  simpa [fakeKeys] using this
+theorem fakeKeys_length (n : Nat) (h : n ≤ 2 ^ 256) : (fakeKeys n).length = n := by
+  rw [(fakeKeys_eq n h).1]; simp
+
+/-- the deviation of the model at the bound: index `2^256` wraps to index 0 (Python: `OverflowError`) -/
+theorem fakeKey_wraps : fakeKey (2 ^ 256) = fakeKey 0 := by decide +kernel
 
 /-- every placeholder is `fakeKey i` for some `i` below the count -/
 theorem mem_fakeKeys (n : Nat) (w : Bytes × Bytes) (h : w ∈ fakeKeys n) : ∃ i, i < n ∧ w = fakeKey i := by
